@@ -226,7 +226,7 @@ def gen_jobs(tier, rng):
     """-> dict family -> list of driver lines"""
     q = tier == "quick"
     fam = {"small": [], "sparse": [], "negative": [], "systematic": [], "stress": [], "stress_negative": []}
-    n_rand = 120 if q else 4000
+    n_rand = 120 if q else 1500
     for fname, pool in (("small", SMALL), ("sparse", SPARSE), ("negative", NEG + SPARSE[:6] + [IMAX])):
         for k in range(n_rand if fname != "negative" else n_rand // 2):
             dim = rng.choice([1, 2, 2, 3, 4])
@@ -250,10 +250,10 @@ def gen_jobs(tier, rng):
         sysprogs += [(4, [[[1, 2, 3, 4]], [[1, 2, 3, 5]]]), (1, [[[IMAX], [0]], [[63], [64]]]), (2, [[[0, 1], [4096, 1]], [[4096, 1], [0, 1]]]),
                      (3, [[[0, 0, 0]], [[0, 0, 0]], [[0, 0, 1]]])]
     for dim, progs in sysprogs:
-        fam["systematic"].append("T %d n %s P2:%d" % (dim, fmt_progs(progs), 45 if q else 3000))
-        fam["systematic"].append("T %d h %s P1:%d" % (dim, fmt_progs(progs), 12 if q else 400))
+        fam["systematic"].append("T %d n %s P2:%d" % (dim, fmt_progs(progs), 45 if q else 800))
+        fam["systematic"].append("T %d h %s P1:%d" % (dim, fmt_progs(progs), 12 if q else 150))
     # real-thread stress: 2..8 threads, larger programs
-    for k in range(30 if q else 600):
+    for k in range(30 if q else 300):
         dim = rng.choice([1, 2, 3, 4])
         nt = rng.choice([2, 4, 8, 8])
         pool = rng.choice([SMALL, SPARSE, list(range(0, 200, 7)), SPARSE + SMALL])
@@ -399,7 +399,7 @@ def run(tier, replay_path=None):
     phases["S model checking"] = round(time.time() - t0, 1); t0 = time.time()
     # R (its executions are histories of an arity-1 tuple set as well: they go through T)
     allh = []
-    rh, rlines = replay(res, wd, "MC_BrieRq.cfg" if q else "MC_BrieR.cfg", drv, max_walks=500 if q else 5000)
+    rh, rlines = replay(res, wd, "MC_BrieRq.cfg" if q else "MC_BrieRt.cfg", drv, max_walks=500 if q else 5000)
     for h in rh:
         h.update(job=rlines[h["line"]], fam="replay", allow_known=False, tolerant=False); allh.append(h)
     phases["R replay"] = round(time.time() - t0, 1)
@@ -428,7 +428,14 @@ def run(tier, replay_path=None):
             res.sample({"family": fname, "job": h["job"], "schedule": h["label"],
                         "events": [json.dumps(e) for e in h["events"][:14]]}, limit=12)
     t0 = time.time()
-    validate(res, wd, "MCT_Brie", allh, kf)
+    # one TLC run per chunk of about 250 000 events (the generated data module must stay loadable)
+    chunk = []; n = 0; ci = 0
+    for h in allh:
+        chunk.append(h); n += len(h["events"]) + 1
+        if n >= 250000:
+            validate(res, wd, "MCT_Brie%d" % ci, chunk, kf); chunk = []; n = 0; ci += 1
+    if chunk:
+        validate(res, wd, "MCT_Brie%d" % ci, chunk, kf)
     phases["T tlc"] = round(time.time() - t0, 1)
     res.sample({"spec": "BrieImpl.tla / TupleSetAbs.tla", "configs": cfgs})
     return finish(res, "model_checking", assumptions=[
